@@ -1,8 +1,10 @@
 use crate::engine::{entry, DynProperty};
 
+pub mod c01;
 pub mod c02;
+pub mod frontends;
 pub mod selftest;
 
 pub fn registry() -> Vec<Box<dyn DynProperty>> {
-    vec![entry(c02::C02)]
+    vec![entry(c01::C01), entry(c02::C02)]
 }
